@@ -197,9 +197,38 @@ func RunSeq(r *vres.Report, keyPrefix string, body func(s *vrt.Sched)) *vrt.Sche
 	switch s.Verdict.Kind {
 	case vrt.OK:
 	case vrt.Panic, vrt.Deadlock:
+		if s.Verdict.Kind == vrt.Panic && panicFromHarness(s.Verdict.Stack) {
+			ToolError("harness panicked in a sequential run: %s", s.Verdict.Detail)
+		}
 		r.Violate(keyPrefix+"/"+strings.ToLower(s.Verdict.Kind.String()), fmt.Sprintf("sequential run ended with %s: %s", s.Verdict.Kind, s.Verdict.Detail), 1, nil)
 	default:
 		ToolError("sequential run did not complete: %s %s", s.Verdict.Kind, s.Verdict.Detail)
 	}
 	return s
+}
+
+// panicFromHarness reports whether the function that called panic (the first frame after the
+// runtime's own in the recorded stack) belongs to harness or shim code rather than to Helios.
+func panicFromHarness(stack string) bool {
+	lines := strings.Split(stack, "\n")
+	seenPanic := false
+	for i := 0; i < len(lines); i++ {
+		l := lines[i]
+		if strings.HasPrefix(l, "\t") {
+			continue
+		}
+		if strings.HasPrefix(l, "panic(") {
+			seenPanic = true
+			continue
+		}
+		if !seenPanic || strings.HasPrefix(l, "runtime.") {
+			continue
+		}
+		file := ""
+		if i+1 < len(lines) {
+			file = lines[i+1]
+		}
+		return strings.Contains(l, "/internal/zzverif/") || strings.Contains(file, "zz_verif") || strings.Contains(file, "/engine/harness/") || !strings.Contains(l, "github.com/0xReLogic/Helios/")
+	}
+	return false
 }
